@@ -34,6 +34,16 @@ def tup(x):
     return x
 
 
+class ArgumentsMutated(Exception):
+    """the library changed a list / mapping the caller passed in (the caller's
+    next call with the same object would ask for something else)"""
+
+
+def _unchanged(before, after, what):
+    if list(before) != list(after):
+        raise ArgumentsMutated("%s changed from %r to %r" % (what, before, after))
+
+
 def run_op(client, op):
     """-> (result, exc).  result is normalised (hashable) or None.
     For walk-type operations the items yielded before an exception are kept
@@ -43,26 +53,34 @@ def run_op(client, op):
         if name == "get":
             return norm_value(drive.run(client.get(OID(args[0])))), None
         if name == "multiget":
-            res = drive.run(client.multiget([OID(o) for o in args[0]]))
+            oids = [OID(o) for o in args[0]]
+            keep = list(oids)
+            res = drive.run(client.multiget(oids))
+            _unchanged(keep, oids, "multiget oids")
             return tuple(norm_value(v) for v in res), None
         if name == "getnext":
             return _vb(drive.run(client.getnext(OID(args[0])))), None
         if name == "multigetnext":
-            res = drive.run(client.multigetnext([OID(o) for o in args[0]]))
+            oids = [OID(o) for o in args[0]]
+            keep = list(oids)
+            res = drive.run(client.multigetnext(oids))
+            _unchanged(keep, oids, "multigetnext oids")
             return tuple(_vb(v) for v in res), None
         if name == "set":
             res = drive.run(client.set(OID(args[0]), to_lib_value(*args[1])))
             return norm_value(res), None
         if name == "multiset":
             mapping = {OID(o): to_lib_value(*v) for o, v in args[0]}
+            keep = list(mapping.items())
             res = drive.run(client.multiset(mapping))
+            _unchanged(keep, mapping.items(), "multiset mapping")
             return tuple((norm_oid(k), norm_value(v)) for k, v in res.items()), None
         if name == "bulkget":
-            res = drive.run(
-                client.bulkget(
-                    [OID(o) for o in args[0]], [OID(o) for o in args[1]], args[2]
-                )
-            )
+            scalar, repeating = [OID(o) for o in args[0]], [OID(o) for o in args[1]]
+            keep = (list(scalar), list(repeating))
+            res = drive.run(client.bulkget(scalar, repeating, args[2]))
+            _unchanged(keep[0], scalar, "bulkget scalar_oids")
+            _unchanged(keep[1], repeating, "bulkget repeating_oids")
             return (
                 ("scalars", tuple((norm_oid(k), norm_value(v)) for k, v in res.scalars.items())),
                 ("listing", tuple((norm_oid(k), norm_value(v)) for k, v in res.listing.items())),
@@ -73,14 +91,18 @@ def run_op(client, op):
             return tuple(_vb(v) for v in items), exc
         if name == "multiwalk":
             kw = {"errors": args[1]} if len(args) > 1 else {}
-            items, exc = drive.drain(
-                client.multiwalk([OID(o) for o in args[0]], **kw), WALK_LIMIT
-            )
+            oids = [OID(o) for o in args[0]]
+            keep = list(oids)
+            items, exc = drive.drain(client.multiwalk(oids, **kw), WALK_LIMIT)
+            if exc is None:
+                _unchanged(keep, oids, "multiwalk oids")
             return tuple(_vb(v) for v in items), exc
         if name == "bulkwalk":
-            items, exc = drive.drain(
-                client.bulkwalk([OID(o) for o in args[0]], bulk_size=args[1]), WALK_LIMIT
-            )
+            oids = [OID(o) for o in args[0]]
+            keep = list(oids)
+            items, exc = drive.drain(client.bulkwalk(oids, bulk_size=args[1]), WALK_LIMIT)
+            if exc is None:
+                _unchanged(keep, oids, "bulkwalk oids")
             return tuple(_vb(v) for v in items), exc
         if name == "table":
             res = drive.run(client.table(OID(args[0])))
